@@ -422,7 +422,7 @@ type bgeu struct {
 func (op *bgeu) Run(ctx *Context, labels map[string]int32, pc int32, memory []int8, sequenceID int32) (Execution, error) {
 	rs1 := registerRead(ctx, op.forward, op.rs1, sequenceID)
 	rs2 := registerRead(ctx, op.forward, op.rs2, sequenceID)
-	if rs1 >= rs2 {
+	if uint32(rs1) >= uint32(rs2) {
 		addr, ok := labels[op.label]
 		if !ok {
 			return Execution{}, fmt.Errorf("label %s does not exist", op.label)
@@ -563,7 +563,7 @@ type bltu struct {
 func (op *bltu) Run(ctx *Context, labels map[string]int32, pc int32, memory []int8, sequenceID int32) (Execution, error) {
 	rs1 := registerRead(ctx, op.forward, op.rs1, sequenceID)
 	rs2 := registerRead(ctx, op.forward, op.rs2, sequenceID)
-	if rs1 < rs2 {
+	if uint32(rs1) < uint32(rs2) {
 		addr, ok := labels[op.label]
 		if !ok {
 			return Execution{}, fmt.Errorf("label %s does not exist", op.label)
@@ -1440,7 +1440,7 @@ type sll struct {
 func (op *sll) Run(ctx *Context, _ map[string]int32, pc int32, memory []int8, sequenceID int32) (Execution, error) {
 	rs1 := registerRead(ctx, op.forward, op.rs1, sequenceID)
 	rs2 := registerRead(ctx, op.forward, op.rs2, sequenceID)
-	register, value := IsRegisterChange(op.rd, rs1<<uint(rs2))
+	register, value := IsRegisterChange(op.rd, rs1<<(uint32(rs2)&31))
 	return Execution{
 		RegisterChange: true,
 		Register:       register,
@@ -1481,7 +1481,7 @@ type slli struct {
 
 func (op *slli) Run(ctx *Context, _ map[string]int32, pc int32, memory []int8, sequenceID int32) (Execution, error) {
 	rs := registerRead(ctx, op.forward, op.rs, sequenceID)
-	register, value := IsRegisterChange(op.rd, rs<<uint(op.imm))
+	register, value := IsRegisterChange(op.rd, rs<<(uint32(op.imm)&31))
 	return Execution{
 		RegisterChange: true,
 		Register:       register,
@@ -1573,7 +1573,7 @@ func (op *sltu) Run(ctx *Context, _ map[string]int32, pc int32, memory []int8, s
 	var value int32
 	rs1 := registerRead(ctx, op.forward, op.rs1, sequenceID)
 	rs2 := registerRead(ctx, op.forward, op.rs2, sequenceID)
-	if rs1 < rs2 {
+	if uint32(rs1) < uint32(rs2) {
 		register, value = IsRegisterChange(op.rd, 1)
 	} else {
 		register, value = IsRegisterChange(op.rd, 0)
@@ -1666,7 +1666,7 @@ type sra struct {
 func (op *sra) Run(ctx *Context, _ map[string]int32, pc int32, memory []int8, sequenceID int32) (Execution, error) {
 	rs1 := registerRead(ctx, op.forward, op.rs1, sequenceID)
 	rs2 := registerRead(ctx, op.forward, op.rs2, sequenceID)
-	register, value := IsRegisterChange(op.rd, rs1>>rs2)
+	register, value := IsRegisterChange(op.rd, rs1>>(uint32(rs2)&31))
 	return Execution{
 		RegisterChange: true,
 		Register:       register,
@@ -1707,7 +1707,7 @@ type srai struct {
 
 func (op *srai) Run(ctx *Context, _ map[string]int32, pc int32, memory []int8, sequenceID int32) (Execution, error) {
 	rs := registerRead(ctx, op.forward, op.rs, sequenceID)
-	register, value := IsRegisterChange(op.rd, rs>>op.imm)
+	register, value := IsRegisterChange(op.rd, rs>>(uint32(op.imm)&31))
 	return Execution{
 		RegisterChange: true,
 		Register:       register,
@@ -1749,7 +1749,7 @@ type srl struct {
 func (op *srl) Run(ctx *Context, _ map[string]int32, pc int32, memory []int8, sequenceID int32) (Execution, error) {
 	rs1 := registerRead(ctx, op.forward, op.rs1, sequenceID)
 	rs2 := registerRead(ctx, op.forward, op.rs2, sequenceID)
-	register, value := IsRegisterChange(op.rd, rs1>>rs2)
+	register, value := IsRegisterChange(op.rd, int32(uint32(rs1)>>(uint32(rs2)&31)))
 	return Execution{
 		RegisterChange: true,
 		Register:       register,
@@ -1790,7 +1790,7 @@ type srli struct {
 
 func (op *srli) Run(ctx *Context, _ map[string]int32, pc int32, memory []int8, sequenceID int32) (Execution, error) {
 	rs := registerRead(ctx, op.forward, op.rs, sequenceID)
-	register, value := IsRegisterChange(op.rd, rs>>op.imm)
+	register, value := IsRegisterChange(op.rd, int32(uint32(rs)>>(uint32(op.imm)&31)))
 	return Execution{
 		RegisterChange: true,
 		Register:       register,
